@@ -73,6 +73,9 @@ func main() {
 		if r := outfam.SelfTest(); r > rc {
 			rc = r
 		}
+		if r := remotefam.SelfTest(); r > rc {
+			rc = r
+		}
 		os.Exit(rc)
 	case "grow":
 		// every specification grown beyond the listed properties, against the CLI
